@@ -21,6 +21,8 @@ var varKinds = []*Kind{
 
 	// multi-name short declaration that re-declares x next to a new name
 	{Name: "Decl2", Print: func(p *Printer, s *Stmt) { p.W("x, w2 := x*10+%d, 1", p.ID()); p.W("_, _ = x, w2") }},
+	// re-declaration from untyped constants: they take the type of the variable they are assigned to
+	{Name: "Decl2C", Print: func(p *Printer, s *Stmt) { p.W("x, w3 := %d.0, 1.5", p.ID()); p.W("_, _ = x, w3") }},
 	// pointer to the current x, read later
 	{Name: "MkPtr", Print: func(p *Printer, s *Stmt) { p.W("g = func(p *int) func() int { return func() int { return *p } }(&x)") }},
 	// range over an iterator inside the generator: x := range VSrc(c)
@@ -84,6 +86,15 @@ var varKinds = []*Kind{
 	// the post statement mentions x only inside a function literal
 	{Name: "ForPostYClo", Arity: 1, Loop: true, Yields: true, Print: func(p *Printer, s *Stmt) {
 		p.W("for n := 0; n < 2; %s {", p.Y("c.W("+itoa(p.ID())+", func() int { return x }())"))
+		p.In()
+		p.W("n++")
+		p.Out()
+		p.Blk(s.Ch[0])
+		p.W("}")
+	}},
+	// the post statement delegates to a generator that reads x through a closure
+	{Name: "ForPostYFClo", Arity: 1, Loop: true, Yields: true, Print: func(p *Printer, s *Stmt) {
+		p.W("for n := 0; n < 2; %s {", p.YF("VSub(c, func() int { return x })"))
 		p.In()
 		p.W("n++")
 		p.Out()
@@ -194,6 +205,11 @@ func VSrc(c *rt.Ctx) Iter[int] {
 	Yield(7)
 	c.E(8002)
 	Yield(8)
+	return nil
+}
+
+func VSub(c *rt.Ctx, f func() int) Iter[int] {
+	Yield(c.W(8003, f()))
 	return nil
 }
 `
